@@ -155,6 +155,8 @@ Definition mon0 : mon :=
   {| m_fsm := Idle; m_topen := false; m_osent := false; m_orcvd := false; m_krcvd := false; m_up := false;
      m_notified := false; m_td := false; m_pb := false; m_mustclose := false |}.
 
+(* a transport is taken (o = true) or closed (o = false); a requested teardown stays requested until a
+   Cease is written (ExaBGP keeps Peer._teardown across a connection replaced by an incoming one) *)
 Definition set_transport (m : mon) (o : bool) : mon :=
   {| m_fsm := m_fsm m; m_topen := o; m_osent := false; m_orcvd := false; m_krcvd := false; m_up := m_up m;
      m_notified := false; m_td := m_td m; m_pb := m_pb m; m_mustclose := false |}.
